@@ -83,6 +83,9 @@ def run(kernel, per_condition_timeout=30):
         out = r.stdout+r.stderr
     except Exception as e:  # noqa
         return [dict(function=kernel, verdict='error', detail=f'{type(e).__name__}: {e}')]
+    finally:
+        import shutil
+        shutil.rmtree(d, ignore_errors=True)
     res = []
     for line in out.splitlines():
         m = re.match(r'.*?:(\d+): (\w+): (.*)', line)
